@@ -77,8 +77,21 @@ func (p *Proxy) Run(address string) error {
 	return http.ListenAndServe(address, p)
 }
 
+// committedWriter remembers whether a part of the response body has been sent to prometheus
+type committedWriter struct {
+	http.ResponseWriter
+	committed bool
+}
+
+// Write implement io.Writer
+func (c *committedWriter) Write(data []byte) (int, error) {
+	c.committed = true
+	return c.ResponseWriter.Write(data)
+}
+
 // ServeHTTP handle one Proxy request
-func (p *Proxy) ServeHTTP(w http.ResponseWriter, r *http.Request) {
+func (p *Proxy) ServeHTTP(rw http.ResponseWriter, r *http.Request) {
+	w := &committedWriter{ResponseWriter: rw}
 	proxyTotal.WithLabelValues().Inc()
 	stopReason := p.getCurCfg().ExtraConfig.StopScrapeReason
 
@@ -117,6 +130,12 @@ func (p *Proxy) ServeHTTP(w http.ResponseWriter, r *http.Request) {
 		if tar != nil {
 			tar.ScrapeTimes++
 			tar.SetScrapeErr(start, scrapErr)
+		}
+
+		// the status code is already sent, abort the response so that prometheus does not
+		// take a truncated body as a successful scrape
+		if scrapErr != nil && w.committed {
+			panic(http.ErrAbortHandler)
 		}
 	}()
 
